@@ -614,6 +614,9 @@ def run(run, model):
     run.try_rule(r08_18, model)
     run.try_rule(r08_19, model)
     run.try_rule(r08_1, model)
+    # the capture walk visits a sub-term whatever its shape (shared with C01 R01.14, restricted to lift.rs)
+    from rules import c01 as _c01w
+    run.try_rule(_c01w.r01_14, model, "R08.22", r"/lift\.rs$")
     run.try_rule(r08_2, model)
     run.try_rule(r08_3, model)
     from rules import c05
